@@ -140,6 +140,11 @@ def build_plan(choice: Choice, tier: str, family: str):
         # 'exact': the caller takes exactly len(data) results (zip / islice style), never asks for StopIteration and
         # drops the generator afterwards
         call["consume"] = "exact" if d(6, "consume") == 5 else "full"
+        # with 'exact': the generator may stay alive and be closed only while the NEXT call is running
+        # (closing the generator only while the NEXT call is running was tried and dropped: an unclosed generator means
+        # that the call is still in progress - its feeding and replace threads are alive - so the next call overlaps it,
+        # which no property covers; the original code misbehaves there in several ways)
+        call["late_close"] = False
         call["pause_items"] = []
         call["pause_stop"] = 0
         if call["lazy"]:
@@ -148,6 +153,9 @@ def build_plan(choice: Choice, tier: str, family: str):
                     call["pause_items"].append(i)
             call["pause_stop"] = d(3, "pause.stop")  # 0 none, 1 yield, 2 defer (as late as possible)
             call["defer_items"] = d(4, "defer.items") == 3
+            # feedback: the input produces the first item of the next chunk only after every result of the chunks
+            # sent so far has been consumed by the caller (a pipeline that feeds on its own output)
+            call["feedback"] = d(6, "feedback") == 5
         calls.append(call)
     p["calls"] = calls
     p["functor_pause"] = d(3, "functor.pause")      # 0 none, 1 yield, 2 defer on some items
@@ -181,6 +189,10 @@ def build_plan(choice: Choice, tier: str, family: str):
             p["until_ready"] = d(5, "until_ready")  # 0 never, 1 at start, 2 between calls, 3 both, 4 inside the result loops
         else:
             p["plain_quota"] = None     # a dead worker would take its share of the capacity with it
+            if p["begin_raises"] is not None and d(3, "until_ready.with.dead") == 2:
+                # until_all_ready() with a worker that dies in begin(): it can never return (that worker's begin() never
+                # completes) - the stall is expected; what must not happen is a return while another begin() still runs
+                p["until_ready"] = 1
             # what is raised: an ordinary exception, or a BaseException that is not an Exception
             p["raise_kind"] = ["Boom", "Boom", "SystemExit", "KeyboardInterrupt"][d(4, "fault.raise_kind")]
         if p["begin_raises"] is None and p["functor_raises"] is None and d(5, "body.raises") == 4:
@@ -292,6 +304,11 @@ def scenario(k: Kernel, plan, obs):
     def data_iter(c, call):
         pauses = set(call["pause_items"])
         for i in range(call["n"]):
+            if call.get("feedback") and i and i % call["chunk"] == 0:
+                need = i
+                k.fault("input-waits-for-results")
+                while len(obs["outs"][c]) < need:
+                    k.block(lambda: len(obs["outs"][c]) >= need, ("input", "feedback"))
             if i in pauses:
                 if call.get("defer_items"):
                     k.defer("input.defer")
@@ -336,6 +353,7 @@ def run_body(k, plan, obs, pool, rec, data_iter, leftovers):
             raise BodyError("body raised before any call")
         if plan["until_ready"] in (1, 3):
             ready_call(k, pool, rec)
+        pending_close = []
         for c, call in enumerate(plan["calls"]):
             out = []
             obs["outs"].append(out)
@@ -347,6 +365,9 @@ def run_body(k, plan, obs, pool, rec, data_iter, leftovers):
             cp = plan["consumer_pause"]
             for v in gen:
                 out.append(v)
+                if pending_close and len(out) >= 1:
+                    k.fault("previous-generator-closed-late")
+                    pending_close.pop().close()
                 if plan["until_ready"] == 4 and len(out) in (1, 3):
                     ready_call(k, pool, rec)
                 if cp == 1:
@@ -354,10 +375,15 @@ def run_body(k, plan, obs, pool, rec, data_iter, leftovers):
                 elif cp == 2 and len(out) % 2 == 1:
                     k.defer("consumer.defer")
                     k.fault("slow-consumer")
+            while pending_close:
+                pending_close.pop().close()
             if call.get("consume") == "exact":
                 # the caller is done with the generator: dropping it closes it (the with blocks inside unwind here)
                 gen = None
-                inner.close()
+                if call.get("late_close") and c + 1 < len(plan["calls"]):
+                    pending_close.append(inner)
+                else:
+                    inner.close()
                 inner = None
             obs["call_state"][c] = "done"
             obs["leftover"].append(leftovers())
@@ -677,7 +703,7 @@ def evaluate(prop, plan, obs, k: Kernel, kind, info):
     elif prop == "C04":
         lv = check_lifecycle(plan, obs, k, complete)
         viol = list(lv)
-        expected_stall = plan["functor_raises"] is not None
+        expected_stall = plan["functor_raises"] is not None or (plan["begin_raises"] is not None and plan["until_ready"] == 1)
         if complete:
             if obs.get("unfinished_at_exit") and not plan.get("join_timeout"):
                 viol.append({"class": "left-running", "site": "process",
